@@ -40,7 +40,7 @@ CHECKS = {
         note='Bounded (tokens, line breaks, layout kinds as class representatives); the continuation sets Cont(e) are transcribed by hand from the grammar.'),
     'C05': dict(
         category='model_checking', design_ref='5 (C05)',
-        technique='TLC-derived sentences of the slash themes carry the dictated class of every `/` (DIV, DIVEQUAL, REGEX); replayed into the parser with a recording lexer under varied layout (white-space kinds, comments, line breaks where derivable); token type chosen per slash offset and the tree compared with the derivation',
+        technique='TLA+ model of the implementation\'s slash decision (SlashImpl.tla: TOKENS_THAT_IMPLY_DIVISON, the header-parenthesis stack, the two backtracking rules of p_error) checked by TLC against the grammar on every derived sentence (SlashDecisionsOK) and bound to the code by comparing its first / final reading of every `/` with the token types the real lexer hands to the parser (drift reported); TLC-derived sentences of the slash themes carry the dictated class of every `/` (DIV, DIVEQUAL, REGEX); replayed into the parser with a recording lexer under varied layout (white-space kinds, comments, line breaks where derivable); token type chosen per slash offset and the tree compared with the derivation',
         text='For every sentence of three slash themes (every predecessor construct the grammar allows: header parentheses of if/for/while/with, call and grouping parentheses, brackets, braces of blocks / objects / functions, operands, postfix and prefix operators, keywords, property names) the token type the parser-driven lexer finally chose at each slash offset and the resulting tree must equal what the derivation dictates, for rotating layout kinds around the slash.',
         note='Bounded; layout kinds are class representatives; the recording lexer subclass observes token() results only.'),
     'C01': dict(
@@ -100,7 +100,7 @@ CHECKS = {
         note='Capturing all comments is not demanded; three named deviations of the round-trip clause are listed in known_findings.json and recognised by a predicate on the printed text (cause classes), anything else is a violation.'),
     'C07': dict(
         category='model_checking', design_ref='5 (C07)',
-        technique='TLC enumerates abstract programs as scope trees (ScopeGen.tla, exhaustive + tlc -simulate); each is rendered, parsed and printed with / without obfuscation in 5 configurations; the recorded renaming of every identifier occurrence is validated by the ES5 scope-resolution specification ScopeTrace.tla in TLC batches',
+        technique='TLA+ model of the obfuscator (ObfuscatorImpl.tla: Scope / CatchScope bookkeeping, reference-count leaking, reserved symbols, remap order, name generator) checked by TLC to be capture-free under the ES5 scope semantics (ScopeSem.tla) on every abstract program, and bound to the code by comparing the generated names with the real printers\' (drift reported); TLC enumerates abstract programs as scope trees (ScopeGen.tla, exhaustive + tlc -simulate); each is rendered, parsed and printed with / without obfuscation in 5 configurations; the recorded renaming of every identifier occurrence is validated by the ES5 scope-resolution specification ScopeTrace.tla in TLC batches',
         text='For every scope tree up to MaxItems items (function declarations, named / anonymous function expressions, catch blocks, parameters, hoisted vars, references, property names over a 3-name pool so that names collide with free names), seeded deeper simulated trees and wide scopes of 53 / 54 / 60 / 600 declarations (multi-letter generated names, the keywords do / if / in), x {minify, +globals, +shadow_funcname, +drop_semi+globals+shadow, indent+obfuscate}: the obfuscated output parses, differs from the un-obfuscated output of the same printer in identifier tokens only, and TLC resolves every occurrence before and after by the ES5 rules: same variable after iff same before, free / property / (unless requested) top-level names unchanged, no generated reserved word.',
         note='Rendered programs hold no with / eval / labels / strings; function declarations inside catch blocks are not generated (ES5 gives them no meaning).  One design deviation (name of a function expression bound in the enclosing scope) is a known finding, attributed by re-judging the record under that design with the same specification.'),
 }
